@@ -255,6 +255,10 @@ def shape_key(cgdef, variant, enums=()):
 # ---------------------------------------------------------------------------
 # building real covergroup classes
 # ---------------------------------------------------------------------------
+class CovFault(Exception):
+    """raised by generated coverpoint callables when a fault is armed"""
+
+
 class CovEnv(object):
     def __init__(self, prog, tag=""):
         self.prog = prog
@@ -263,6 +267,7 @@ class CovEnv(object):
         self.enums = {}
         self.fn_calls = 0
         self.shared_specs = {}
+        self.raise_in = None
         for e in prog.get("enums", []):
             self.enums[e["name"]] = enum.IntEnum(e["name"] + tag, [(n, v) for (n, v) in e["items"]])
         self.classes = {}
@@ -311,6 +316,9 @@ class CovEnv(object):
 
                     def target(name=name):
                         env.fn_calls += 1
+                        if env.raise_in == name:
+                            env.raise_in = None
+                            raise CovFault("injected in coverpoint target " + name)
                         return env.state[name]
                     if "en" in sdef:
                         kw["cp_t"] = vsc.enum_t(env.enums[sdef["en"]])
@@ -352,6 +360,9 @@ class CovEnv(object):
 
         def f(name=name):
             self.fn_calls += 1
+            if self.raise_in == "iff:" + name:
+                self.raise_in = None
+                raise CovFault("injected in iff callable " + name)
             return self.state[name]
         return f
 
